@@ -136,6 +136,15 @@ pub fn generate(focus: Focus, seed: u64, run: u64, _tier: Tier, st: &mut Stats) 
                 1 | 2 => 2,
                 _ => 1 + rw.below(max),
             };
+            // long chains of small records now and then (what is cheap per record may not be per chain)
+            let long_chain = matches!(mode, "junk" | "any" | "clean") && rw.chance(1, 30);
+            let n = if long_chain { 20 + rw.below(60) } else { n };
+            let mut swarm = swarm.clone();
+            if long_chain {
+                swarm.size_w = [6, 1, 0, 0];
+                swarm.max_args = 2;
+            }
+            let swarm = swarm;
             let foreign_pct = match mode {
                 "dialect" => 100,
                 "any" => 8,
